@@ -10,6 +10,7 @@ import (
 	"time"
 
 	"github.com/sharedcode/sop"
+	"github.com/sharedcode/sop/cache"
 
 	"verifharness/kit/deco"
 	"verifharness/kit/env"
@@ -137,7 +138,81 @@ func readRaw(db sopx.DB, mode string) (d sopx.Dump) {
 	return d
 }
 
+// InflightRes is one round of the in-flight half: a writer that has done its work but not committed.
+type InflightRes struct {
+	Shape    string       `json:"shape"`
+	Profile  string       `json:"profile"`
+	Slot     int          `json:"slot"`
+	Ending   string       `json:"ending"` // rollback | commit
+	L1Max    int          `json:"l1_max"`
+	Cleared  bool         `json:"l2_cleared_and_rescanned"`
+	Program  *txn.Program `json:"program,omitempty"`
+	InFlight string       `json:"diff_while_in_flight,omitempty"`
+	Final    string       `json:"diff_after_end,omitempty"`
+	Harness  string       `json:"harness,omitempty"`
+}
+
+// inflight: the "while the writer is in flight" and "after it aborts" clauses under CACHE PRESSURE. The
+// process-wide L1 node cache is tiny (2-4 entries), so nodes the writer reads are L1 misses served from
+// the L2 cache (after an optional L2 clear + full scan they got there through the blob-load path). The
+// writer runs its whole program and stays open; a reader of another session must see the pre-writer
+// state; the writer then rolls back (or commits) and a reader must see before (after).
+func inflight(i int, seed int64) any {
+	l1max := []int{2, 3, 4}[i%3]
+	cache.DefaultMinCapacity, cache.DefaultMaxCapacity = 1, l1max
+	cache.DefaultStandaloneMinCapacity, cache.DefaultStandaloneMaxCapacity = 1, l1max
+	mirror.InstallGlobals()
+	sop.RetryStartDuration = time.Millisecond
+	shapes := []string{"S6-updates", "S7-removes", "S4-split", "S8-mixed", "S3-leaf-insert"}
+	c := combo{Shape: shapes[i%len(shapes)], Profile: sopx.Profiles[(i/2)%4], Slot: []int{2, 4}[(i/3)%2]}
+	res := InflightRes{Shape: c.Shape, Profile: string(c.Profile), Slot: c.Slot, Ending: []string{"rollback", "rollback", "commit"}[i%3], L1Max: l1max, Cleared: i%2 == 0}
+	dir, db, before, after, prog, err := setup(c, seed, 1000+i)
+	if err != nil {
+		res.Harness = err.Error()
+		return res
+	}
+	defer env.Remove(dir)
+	res.Program = &prog
+	if res.Cleared {
+		if l2 := sop.GetL2Cache(sop.TransactionOptions{CacheType: sop.InMemory}); l2 != nil {
+			l2.Clear(context.Background())
+		}
+	}
+	if d := txn.DiffContent(read(db, "reading"), before.Dump()); d != "" {
+		res.Harness = "warm-up scan differs from the baseline: " + d
+		return res
+	}
+	pub := txn.Public{DB: db}
+	wt, err := pub.Begin(sop.ForWriting, time.Minute)
+	if err != nil {
+		res.Harness = err.Error()
+		return res
+	}
+	if r, err := txn.Run(pub, wt, prog); err != nil || r != nil {
+		wt.Rollback(context.Background())
+		res.Harness = fmt.Sprintf("program: %v %+v", err, r)
+		return res
+	}
+	res.InFlight = txn.DiffContent(read(db, "reading"), before.Dump())
+	final := before
+	if res.Ending == "commit" {
+		if err := wt.Commit(context.Background()); err != nil {
+			res.Harness = "commit: " + err.Error()
+			return res
+		}
+		final = after
+	} else if err := wt.Rollback(context.Background()); err != nil {
+		res.Harness = "rollback: " + err.Error()
+		return res
+	}
+	res.Final = txn.DiffContent(read(db, "reading"), final.Dump())
+	return res
+}
+
 func round(i int, seed int64, extra []string) any {
+	if len(extra) > 0 && extra[0] == "inflight" {
+		return inflight(i, seed)
+	}
 	mirror.InstallGlobals()
 	sop.RetryStartDuration = time.Millisecond
 	thorough := len(extra) > 0 && extra[0] == "thorough"
@@ -384,6 +459,51 @@ func Run(r *report.Run) int {
 			}
 		}
 	}
+	// the in-flight half: one worker process per round (the tiny L1 capacity is a process-wide setting)
+	nIn := r.Pick(30, 240)
+	ilines, idied := par.Run(r, "c03-worker", nIn, nIn, 600, nil, "inflight")
+	for _, d := range idied {
+		r.Inconclusive("inflight-worker-died")
+		r.Set("inflight_worker_death", d)
+	}
+	for _, l := range ilines {
+		var res InflightRes
+		if json.Unmarshal(l.Res, &res) != nil {
+			continue
+		}
+		fp := fmt.Sprintf("inflight:%s:%s:slot%d:l1max%d:%s:cleared=%v", res.Shape, res.Profile, res.Slot, res.L1Max, res.Ending, res.Cleared)
+		if res.Harness != "" {
+			r.Inconclusive("inflight-harness")
+			r.Set("inflight_harness_example", res.Harness)
+			r.Eval(fp, false)
+			continue
+		}
+		r.Eval(fp, true)
+		r.Count("inflight_rounds", 1)
+		if l.Round < 1 {
+			r.Sample(res)
+		}
+		if res.InFlight != "" {
+			cls := "uncommitted-writes-visible-while-in-flight"
+			if strings.Contains(res.InFlight, "COUNT-ONLY") {
+				cls += "-count-only"
+			}
+			r.Violation(fmt.Sprintf("C03:%s:inflight/%s/%s:%s", res.Shape, res.Profile, res.Ending, cls), res)
+		}
+		if res.Final != "" {
+			cls := "rolled-back-writes-visible"
+			if res.Ending == "commit" {
+				cls = "committed-writes-not-visible"
+			}
+			if strings.Contains(res.Final, "COUNT-ONLY") {
+				cls += "-count-only"
+			}
+			r.Violation(fmt.Sprintf("C03:%s:inflight/%s/%s:%s", res.Shape, res.Profile, res.Ending, cls), res)
+		}
+	}
+	if len(ilines) < nIn*9/10 {
+		r.Broken("only %d of %d in-flight rounds reported", len(ilines), nIn)
+	}
 	r.Count("pause_sites_planned", int64(planned))
 	r.Count("pause_sites_parked", int64(parked))
 	if planned == 0 || parked*100 < planned*95 {
@@ -392,6 +512,6 @@ func Run(r *report.Run) int {
 	return r.Finish(rule, assumptions, 50)
 }
 
-const rule = "writer programs (shapes with updated nodes: S6 updates, S4 split, S7 removes; thorough adds S2,S3,S5,S8) on the mirror path are parked, one run per site, at EVERY decorator call site of their commit; while the writer is parked a reader transaction of another session (public path, ForReading; thorough also NoCheck) scans the store and reads Count(); it must see the pre-writer state at every site up to and including the commit-point call reg.UpdateNoLocks(true), the post state after it, and either inside the block-write window of that call when the writer goes on to commit, and the pre-writer state there too when the writer is about to fail in that window; then the writer resumes and commits, or resumes into an injected failure and rolls back, and a later reader must see after / before; fingerprint = (shape, profile, outcome, reader mode, site); non-trivial = the reader completed while the writer was parked"
+const rule = "writer programs (shapes with updated nodes: S6 updates, S4 split, S7 removes; thorough adds S2,S3,S5,S8) on the mirror path are parked, one run per site, at EVERY decorator call site of their commit; while the writer is parked a reader transaction of another session (public path, ForReading; thorough also NoCheck) scans the store and reads Count(); it must see the pre-writer state at every site up to and including the commit-point call reg.UpdateNoLocks(true), the post state after it, and either inside the block-write window of that call when the writer goes on to commit, and the pre-writer state there too when the writer is about to fail in that window; then the writer resumes and commits, or resumes into an injected failure and rolls back, and a later reader must see after / before; fingerprint = (shape, profile, outcome, reader mode, site); non-trivial = the reader completed while the writer was parked. IN-FLIGHT half: one process per round with a 2-4 entry L1 node cache (optionally the L2 cache cleared and the store re-scanned first, so cached nodes came through the blob-load path); a public-path writer runs its whole program and stays open while a reader of another session scans the store (must see the pre-writer state), then rolls back or commits and a reader must see before / after"
 
 var assumptions = []string{"mirror-path writer, public-path reader, same process (shared L1/L2 caches)", "standalone in-memory L2", "shapes without an updated node (first root of an empty store) are excluded: their commit point is not the flip call"}
